@@ -182,9 +182,35 @@ def mk_bin(op, a, b):
         v = _fold(op, cval(a), cval(b))
         if v is not None:
             return const(v)
+    if op == '|':
+        # the union of two dict displays (either may be chosen by a condition) is one display whose entries are conditional
+        ea, eb = _dict_entries(a, ()), _dict_entries(b, ())
+        if ea is not None and eb is not None:
+            if not ({repr(x[-2]) for x in ea} & {repr(x[-2]) for x in eb}):      # (no key of the left side is overridden)
+                return ('dict', tuple(ea + eb))
     if op in ('|', '&', '^', '*') and repr(b) < repr(a):
         a, b = b, a
     return ('bin', op, a, b)
+
+
+def _dict_entries(t, atoms):
+    """entries of a dict display, or of the displays a conditional chooses between (each under its condition); None otherwise"""
+    if t[0] == 'dict':
+        out = []
+        for e in t[1]:
+            if len(e) == 2 and e[0] != 'star':
+                out.append(('when', norm_pc(tuple(atoms)), e[0], e[1]) if atoms else e)
+            elif len(e) == 4 and e[0] == 'when':
+                out.append(('when', norm_pc(tuple(atoms) + tuple(e[1])), e[2], e[3]))
+            else:
+                return None
+        return out
+    if t[0] == 'cond' and len(t) == 4:
+        x, y = _dict_entries(t[2], atoms + ((t[1], True),)), _dict_entries(t[3], atoms + ((t[1], False),))
+        if x is None or y is None:
+            return None
+        return x + y
+    return None
 
 
 class SVal:
